@@ -458,9 +458,20 @@ func run(prop, tier string, c *core.Choices, trace bool) *harness.RunResult {
 			creq.Nets = append(creq.Nets, cn)
 		}
 		creq.JSONForm = c.Prob(1, 2)
+		if c.Prob(1, 4) {
+			// an ENI network is configured too: with a networks annotation galaxy ignores it
+			creq.ENI = &w2.C13Net{Name: "eni", Type: "tke-route-eni"}
+		}
+	} else if c.Prob(1, 2) {
+		// no networks annotation, and galaxy.json declares an ENI network: the pod (it requests the ENI-IP resource) is
+		// put on that network instead of the defaults, and its plugin must receive the ipinfos all the same
+		creq.ENI = &w2.C13Net{Name: "eni", Type: "tke-route-eni", IPAM: c.Prob(1, 2)}
+	}
+	if creq.ENI != nil && len(creq.Nets) == 0 {
+		res.Stats["c13.eni-network-pods"]++
 	}
 	invs, status, reply, infra := w2.AddForC13(creq)
-	res.Trace = append(res.Trace, fmt.Sprintf("annotation written by Bind: %s", argsAnn), fmt.Sprintf("stored FloatingIP objects: %v", stored), fmt.Sprintf("pod networks: %+v json=%v", creq.Nets, creq.JSONForm), fmt.Sprintf("plugins decoded: %+v (ADD status %d)", invs, status))
+	res.Trace = append(res.Trace, fmt.Sprintf("annotation written by Bind: %s", argsAnn), fmt.Sprintf("stored FloatingIP objects: %v", stored), fmt.Sprintf("pod networks: %+v json=%v eni=%+v", creq.Nets, creq.JSONForm, creq.ENI), fmt.Sprintf("plugins decoded: %+v (ADD status %d)", invs, status))
 	if infra != "" {
 		res.Infra = "phase (b): " + infra
 		return res
